@@ -123,12 +123,21 @@ pub fn run(ctx: &Ctx) -> i32 {
         n: if ctx.quick() { 30_000 } else { 1_000_000 },
     };
     acc.pool(&ex, "c04load", true);
+    // process-level slices: the real binaries
+    let cli = CliTexts {
+        n: if ctx.quick() { 600 } else { 20_000 },
+    };
+    acc.pool(&cli, "c04cli", true);
+    let typing = LspTyping {
+        n: if ctx.quick() { 48 } else { 1000 },
+    };
+    acc.pool(&typing, "c04lsp", true);
     acc.finish(
         "exploration",
         "texts: all token sequences of length <=3 over the 51-kind alphabet and <=5 (thorough 6) over a 12-kind alphabet behind three statement prefixes (exhaustive), 18 nesting families at depths up to 200 (valid, unbalanced, mixed), generated programs, token/byte mutants, corpus mutants, arbitrary Unicode with hostile YAML; each through oal_syntax::parse, oal_wasm::compile and the language server's open/load/eval/diagnostics cycle in a worker process (panics caught per entry point, aborts and hangs attributed by the pool); plus load+compile of multi-module exploration cases; non-trivial = a text of more than 2 bytes that is not accepted (the diagnostics path); distinct by text hash",
         2000,
         false,
-        &["process-level slices (oal-cli, oal-lsp binaries) run in C13/C15 and in this check's thorough tier"],
+        &["process-level slices: hostile texts through the real oal-cli, and oal-lsp sessions in which a program is typed character by character (incremental changes, requests in between) and hostile texts are pasted"],
         json!({}),
     )
 }
@@ -168,6 +177,186 @@ impl Workload for LoadCrash {
         check_load(&crate::drive::pipeline::Sources::from_json(&case["sources"]), st)
     }
     fn chunk(&self) -> u64 {
+        300
+    }
+}
+
+// ---------------------------------------------------------------------------------------------------
+// Process-level slice: the real oal-cli and oal-lsp binaries on hostile texts.
+// ---------------------------------------------------------------------------------------------------
+
+use crate::drive::cli::{run_cli, TempDir};
+use crate::drive::lsp::{file_uri, ClientDoc, Lsp, LspError};
+
+pub struct CliTexts {
+    pub n: u64,
+}
+
+fn hostile_text(seed: u64, idx: u64) -> (String, &'static str) {
+    use crate::gen::tok::{nesting, NEST_DEPTHS};
+    let mut rng = crate::util::Rng::for_case(seed, "c04proc", idx);
+    match idx % 6 {
+        0 => {
+            let fam = (idx / 6) as usize % 18;
+            let d = NEST_DEPTHS[(idx / 108) as usize % NEST_DEPTHS.len()];
+            (nesting(fam, d).unwrap_or_default(), "nesting")
+        }
+        1 => (crate::gen::mutate::random_text(&mut rng), "random"),
+        2 | 3 => {
+            let c = super::explore::explore_case(seed, "c04proc", idx);
+            (c.sources.files[0].1.clone(), "program-or-mutant")
+        }
+        4 => {
+            let c = super::explore::explore_case(seed, "c04proc", idx);
+            (crate::gen::mutate::mutate_bytes(&c.sources.files[0].1, &mut rng), "byte-mutant")
+        }
+        _ => {
+            let digits: String = (0..rng.range(1, 40)).map(|_| char::from(b'0' + rng.below(10) as u8)).collect();
+            (
+                format!("let a = {digits};\nres / on get -> <status={digits}, {{}}> `description: \"{}\"`;\n", rng.pick(&["é😉", "a: b", "\\", "[", "*x"])),
+                "numbers-and-yaml",
+            )
+        }
+    }
+}
+
+fn check_cli_text(t: &str, family: &str, st: &mut Stats) -> Vec<Violation> {
+    let dir = TempDir::new("c04cli");
+    std::fs::write(dir.path.join("main.oal"), t).unwrap();
+    let r = run_cli(&dir.path, "main.oal", "out.yaml", None);
+    st.inc(&format!("cli:{family}:{}", if r.success() { "ok" } else { "failed" }));
+    let mut out = Vec::new();
+    let mut viol = |sig: String| {
+        out.push(Violation::new(
+            "oal-cli crashed, hung or did not answer on a text",
+            json!({"signature": sig, "stderr": crate::util::clip(&r.stderr, 500), "text": crate::util::clip(t, 400)}),
+        ));
+    };
+    if r.timed_out {
+        viol("C04 cli: no answer within the watchdog".into());
+    } else if r.signal.is_some() {
+        viol(format!("C04 cli: killed by signal {:?}", r.signal));
+    } else if !matches!(r.code, Some(0) | Some(1)) {
+        viol(format!("C04 cli: exit code {:?}", r.code));
+    } else if r.stderr.contains("panicked") || r.stderr.contains("overflowed its stack") || r.stderr.contains("AddressSanitizer") {
+        viol("C04 cli: panic or sanitizer report on stderr".into());
+    } else if !r.success() && r.stderr.trim().is_empty() {
+        viol("C04 cli: failure without a diagnostic".into());
+    }
+    st.nontrivial(hash64(t));
+    out
+}
+
+impl Workload for CliTexts {
+    fn len(&self) -> u64 {
+        self.n
+    }
+    fn case_json(&self, seed: u64, idx: u64) -> Value {
+        let (t, f) = hostile_text(seed, idx);
+        json!({"texts": [t], "family": f})
+    }
+    fn run(&self, seed: u64, idx: u64, st: &mut Stats) -> Vec<Violation> {
+        let (t, f) = hostile_text(seed, idx);
+        st.sample(|| json!({"family": f, "text": crate::util::clip(&t, 200)}));
+        check_cli_text(&t, f, st)
+    }
+    fn run_json(&self, case: &Value, st: &mut Stats) -> Vec<Violation> {
+        check_cli_text(case["texts"][0].as_str().unwrap_or(""), "replay", st)
+    }
+    fn chunk(&self) -> u64 {
+        20
+    }
+}
+
+/// Language-server sessions: a document typed character by character, then hostile texts pasted.
+pub struct LspTyping {
+    pub n: u64,
+}
+
+fn typing_session(seed: u64, idx: u64, st: &mut Stats) -> Vec<Violation> {
+    let mut rng = crate::util::Rng::for_case(seed, "c04lsp", idx);
+    let dir = TempDir::new("c04lsp");
+    std::fs::write(dir.path.join("main.oal"), "res / on get -> {};\n").unwrap();
+    std::fs::write(dir.path.join("oal.toml"), "[api]\nmain = \"main.oal\"\ntarget = \"out.yaml\"\n").unwrap();
+    let uri = file_uri(&dir.path.join("main.oal"));
+    let fail = |e: LspError, what: &str, text: &str| -> Vec<Violation> {
+        vec![Violation::new(
+            "the language server died or stopped answering on a text",
+            json!({"signature": format!("C04 lsp: server failure while {what}"), "error": crate::util::clip(&format!("{e:?}"), 500), "text": crate::util::clip(text, 400)}),
+        )]
+    };
+    let mut lsp = match Lsp::start(&dir.path, None) {
+        Ok(l) => l,
+        Err(e) => return fail(e, "starting", ""),
+    };
+    // the program an editor user types
+    let program = {
+        let c = super::explore::explore_case(seed, "c04lspprog", idx * 20);
+        c.sources.files[0].1.clone()
+    };
+    let program: String = program.chars().take(400).collect();
+    let mut doc = ClientDoc::new("");
+    if let Err(e) = lsp.did_open(&uri, "") {
+        return fail(e, "opening", "");
+    }
+    let mut version = 0;
+    for (k, ch) in program.chars().enumerate() {
+        let end = doc.units.len();
+        let p = doc.position_of(end);
+        let s = ch.to_string();
+        doc.replace(end, end, &s);
+        version += 1;
+        if let Err(e) = lsp.did_change(&uri, version, &[(Some([p, p]), s)]) {
+            return fail(e, "typing", &doc.text());
+        }
+        st.inc("keystrokes");
+        if k % 7 == 0 {
+            let q = doc.position_of(rng.below(doc.units.len() + 1).min(doc.units.len()));
+            let m = *rng.pick(&["textDocument/definition", "textDocument/references", "textDocument/prepareRename"]);
+            // positions inside a surrogate pair are not sent
+            if let Err(e) = lsp.position_request(m, &uri, q[0], q[1]) {
+                return fail(e, "answering a request after a keystroke", &doc.text());
+            }
+            st.inc("requests_after_keystrokes");
+        }
+    }
+    for j in 0..6 {
+        let (t, _) = hostile_text(seed, idx * 6 + j);
+        version += 1;
+        if let Err(e) = lsp.did_change(&uri, version, &[(None, t.clone())]) {
+            return fail(e, "pasting", &t);
+        }
+        if let Err(e) = lsp.position_request("textDocument/definition", &uri, 0, 0) {
+            return fail(e, "answering a request after a paste", &t);
+        }
+        st.inc("pastes");
+        if !lsp.alive() {
+            return fail(LspError::Died(lsp.stderr_tail()), "after a paste", &t);
+        }
+    }
+    st.add("jsonrpc_messages", (lsp.messages_sent + lsp.messages_received) as u64);
+    st.nontrivial(hash64(&program));
+    lsp.shutdown();
+    vec![]
+}
+
+impl Workload for LspTyping {
+    fn len(&self) -> u64 {
+        self.n
+    }
+    fn case_json(&self, seed: u64, idx: u64) -> Value {
+        json!({"seed": seed, "index": idx})
+    }
+    fn run(&self, seed: u64, idx: u64, st: &mut Stats) -> Vec<Violation> {
+        typing_session(seed, idx, st)
+    }
+    fn run_json(&self, case: &Value, st: &mut Stats) -> Vec<Violation> {
+        typing_session(case["seed"].as_u64().unwrap_or(1), case["index"].as_u64().unwrap_or(0), st)
+    }
+    fn chunk(&self) -> u64 {
+        2
+    }
+    fn case_timeout_s(&self) -> u64 {
         300
     }
 }
